@@ -99,7 +99,8 @@ def run(chk):
         evs = [f for f in F.funcs(cls, "evaluate") if len(f["params"]) == 7]
         if not evs:
             raise Broken("primary evaluate not instantiated for " + cls)
-        for f in [gi] + evs:
+        check_initial_guess(chk, F, E, cls, gi, roles, members, flags_member, dim, expected_flags, dirty, count_member)
+        for f in evs:
             chk.saw(f)
             sc = Scope(f)
             for n in walk(f["body"]):
@@ -310,7 +311,14 @@ def map_hook(c, e, env, I):
     """calls into the (user-replaceable) time / spatial maps are opaque functions of their scalar arguments"""
     nm = c.get("name")
     if nm in MAP_API and e.get("obj") is not None:
-        args = [I.ev(a, env) for a in e["args"]]
+        args = []
+        for a in e["args"]:
+            v = I.ev(a, env)
+            if isinstance(v, sym.BlockVec) and v.r == 1:
+                v = v.rows[0]
+            if isinstance(v, sym.Vec):
+                v = sp.Symbol(repr(sym.norm_atoms(v)))      # a vector argument, named by its canonical content
+            args.append(v)
         if all(isinstance(a, sp.Basic) for a in args):
             return sp.Function(MAP_API[nm])(*args)
     return NotImplemented
@@ -479,6 +487,109 @@ def c06_upper_excl(L):
     if L.step != 1 or L.hi is None:
         return None
     return L.hi if L.cond_op == "<" else (L.hi + 1 if L.cond_op == "<=" else None)
+
+
+def check_initial_guess(chk, F, E, cls, gi, roles, members, flags_member, dim, expected_flags, dirty, count_member):
+    """R2 for generateInitialGuess on its meaning: interpreted once per assignment of the flags it consults; compared are
+    the slots written and what is written there (time slots, one run per layout entry, one DIM-block per set flag in the
+    canonical order starting at the derivative offset), whatever traversal helper, counter or index arithmetic is used."""
+    from .. import paths
+    from . import c16
+    _, rl = c16.discover_roles(F, E, cls)
+    n = sp.Symbol(count_member, integer=True, positive=True)
+    chk.saw(gi)
+    where = loc(gi)
+
+    def run(oracle):
+        I = Interp(F, cls, on_call=map_hook)
+        I.field_assumptions[count_member] = {"positive": True}
+        I.case = {"first": False, "last": False}
+        I.path_oracle = oracle
+        try:
+            ret = I.run_body(gi, {})
+        except Unsupported as ex:
+            raise Broken("generateInitialGuess not analysable: %s" % ex)
+        return I, ret
+    res = [(a, r) for a, r in paths.explore(run) if a.get(sp.Symbol(dirty)) is False]
+    if not res:
+        raise Broken("generateInitialGuess: no path with a clean layout cache")
+    D = sp.Symbol(members["D"], integer=True)
+    Tt = sp.Symbol(members["T"], integer=True)
+    ok = {"time": True, "spatial": True, "blocks": True, "size": True}
+    det = {}
+    fsym = lambda nm: sp.Symbol("%s.%s" % (flags_member, nm))
+    lay = roles["container"]
+    for assign, (I, ret) in res:
+        if not isinstance(ret, sym.Container):
+            raise Broken("generateInitialGuess does not return a vector the interpreter tracks")
+        xn = ret.name
+        sz = [e for e in I.effects if e.target == xn and e.op == "resize"]
+        if not ((sz and sym.is_zero(sz[0].value[0] - Tt)) or (ret.size is not None and sym.is_zero(ret.size - Tt))):
+            ok["size"] = False
+            det["size"] = "sized %s" % (sz[0].value if sz else ret.size)
+        tl = [L for L in I.loops if not getattr(L, "over", None) and any(e.target == xn for e in L.effects)]
+        sl = [L for L in I.loops if getattr(L, "over", None) == lay and any(e.target == xn for e in L.effects)]
+        if len(tl) != 1 or len(sl) != 1:
+            raise Broken("generateInitialGuess: time / layout loops not identified (%d / %d)" % (len(tl), len(sl)))
+        # time slots
+        L = tl[0]
+        te = [e for e in L.effects if e.target == xn]
+        Tm = sp.IndexedBase(rl["TIMES"], real=True)
+        good = len(te) == 1 and te[0].op == "="
+        if good:
+            i = L.var
+            c_ = sp.expand(te[0].key[0] - i)
+            ue = c06_upper_excl(L)
+            good = (i not in c_.free_symbols and ue is not None and sym.is_zero(L.lo + c_) and sym.is_zero(ue + c_ - n)
+                    and sym.is_zero(sp.sympify(te[0].value).xreplace({i: i - c_}) - sp.Function("toTau")(Tm[i])))
+        if not good:
+            ok["time"] = False
+            det["time"] = str([(str(e.key), str(e.value)) for e in te])
+        # one run of slots per layout entry
+        L = sl[0]
+        se = [e for e in L.effects if e.target == xn]
+        ev = L.var
+        offI = sp.Indexed(sp.IndexedBase("%s.%s" % (lay, roles["offset"]), real=True), ev)
+        good = len(se) == 1 and se[0].op == "="
+        if good:
+            key = se[0].key[0]
+            idx = [a for a in sp.sympify(key).atoms(sp.Indexed)]
+            rng = [r for r in I.effects_ranges if r[0] == xn and r[4] == se[0].line]
+            def fld(a):
+                return str(a.base).split("#")[0]
+            good = (len(idx) == 1 and fld(idx[0]) == "%s.%s" % (lay, roles["offset"]) and sym.is_zero(idx[0].indices[0] - ev) and sym.is_zero(key - idx[0] - sym.RSYM) and len(rng) == 1)
+            if good:
+                cnt = sp.sympify(rng[0][2])
+                ci = list(cnt.atoms(sp.Indexed))
+                good = len(ci) == 1 and fld(ci[0]) == "%s.%s" % (lay, roles["width"]) and sym.is_zero(cnt - ci[0]) and sym.is_zero(ci[0].indices[0] - ev)
+            if good:
+                val = sp.sympify(rng[0][3])
+                good = val.func == sp.Function("toUnconstrained") and len(val.args) == 2
+                if good:
+                    pi = list(sp.sympify(val.args[1]).atoms(sp.Indexed))
+                    good = (len(pi) == 1 and fld(pi[0]) == "%s.%s" % (lay, roles["point"]) and sym.is_zero(val.args[1] - pi[0]) and sym.is_zero(pi[0].indices[0] - ev)
+                            and str(val.args[0]).replace(str(pi[0]), "PT").startswith("(('%s[PT]'," % rl["WPTS"]) and str(val.args[0]).endswith("'1'),)"))
+        if not good:
+            ok["spatial"] = False
+            det["spatial"] = str([(str(e.key), str(e.value)[:120]) for e in se])
+        # boundary-derivative blocks
+        be = [e for e in I.effects if e.target == xn and e.op == "=" and sym.RSYM in sp.sympify(e.key[0]).free_symbols]
+        setf = [fl for fl in expected_flags if assign.get(fsym(fl)) is True]
+        consulted = {str(k_)[len(flags_member) + 1:] for k_ in assign if str(k_).startswith(flags_member + ".")} - {"start_p", "end_p"}
+        good = len(be) == len(setf) and consulted == set(expected_flags)
+        for j, (fl, e) in enumerate(zip(setf, be)):
+            want_v = sp.Function("comp")(sp.Symbol(repr((("%s.%s[]" % (rl["BC"], FIELD_OF_FLAG[fl]), "1"),))), sym.RSYM)
+            rng = [r for r in I.effects_ranges if r[0] == xn and sym.is_zero(r[1] + sym.RSYM - e.key[0])]
+            good = good and sym.is_zero(e.key[0] - (D + dim * j + sym.RSYM)) and sp.sympify(e.value) == want_v and len(rng) >= 1 and sym.is_zero(rng[0][2] - dim)
+        if not good:
+            ok["blocks"] = False
+            det["blocks"] = "flags set %s: %s" % (setf, [(str(e.key[0]), str(e.value)) for e in be])
+    inst = "generateInitialGuess"
+    chk.ob("C09-R2", "%s %s: the vector has the reported dimension" % (cls, inst), ok["size"], where, det.get("size", ""), construct="%s/%s/size" % (cls, inst))
+    chk.ob("C09-R2", "%s %s: time slot i <- toTau(reference duration i), i < N" % (cls, inst), ok["time"], where, det.get("time", ""), construct="%s/%s/time" % (cls, inst))
+    chk.ob("C09-R2", "%s %s: slots [offset, offset+dof) <- toUnconstrained(reference waypoint point_index)" % (cls, inst), ok["spatial"], where, det.get("spatial", ""), construct="%s/%s/spatial" % (cls, inst))
+    chk.ob("C09-R2", "%s %s: block j (j-th set flag the order has, canonical order) at derivative offset + j*DIM <- that reference boundary derivative, for every flag assignment" % (cls, inst),
+           ok["blocks"], where, det.get("blocks", "%d flag assignments" % len(res)), construct="%s/%s/blocks" % (cls, inst))
 
 
 def check_spatial_and_time(chk, F, cls, f, sc, is_guess):
